@@ -5,6 +5,7 @@ import Driver.MemCmds
 import Driver.LitCmds
 import Driver.EmitCmds
 import Driver.SimCmds
+import Driver.InstCmds
 
 open Driver
 
@@ -30,6 +31,9 @@ partial def loop (h : IO.FS.Stream) (out : IO.FS.Stream) (sess : EmitSession) : 
   let line ← h.getLine
   if line.isEmpty then return ()
   match simCmd sess (words line) with
+  | some r => out.putStrLn r; loop h out sess
+  | none =>
+  match instCmd (words line) with
   | some r => out.putStrLn r; loop h out sess
   | none =>
   match simCmd2 sess (words line) with
